@@ -20,6 +20,7 @@ import (
 	"sort"
 	"strconv"
 	"strings"
+	"time"
 
 	"github.com/compose-spec/compose-go/v2/types"
 
@@ -693,8 +694,13 @@ func c16JudgeOracle(args, real, drv json.RawMessage) *core.Verdict {
 	return nil
 }
 
+// None of the modelled functions loops (finite lists, finite files); a case that does not answer within the default
+// 10 s on a saturated machine is a scheduling stall, so the watchdog is generous.  Hangs of the loader are C01's.
+const c16Timeout = 180 * time.Second
+
 func init() {
 	core.Register("c16.resolve", &core.CheckDef{
+		Timeout:  c16Timeout,
 		Real:     c16RealResolve,
 		DriverOp: "c16.resolve",
 		Judge: func(args, real, drv json.RawMessage) *core.Verdict {
@@ -712,6 +718,7 @@ func init() {
 		},
 	})
 	core.Register("c16.load", &core.CheckDef{
+		Timeout: c16Timeout,
 		Real: func(raw json.RawMessage) any {
 			var a c16Args
 			if err := json.Unmarshal(raw, &a); err != nil {
@@ -723,6 +730,7 @@ func init() {
 		Judge:    c16Corr("LoadWithContext"),
 	})
 	core.Register("c16.oracle", &core.CheckDef{
+		Timeout:  c16Timeout,
 		Real:     c16RealOracle,
 		DriverOp: "c16.spec",
 		Judge:    c16JudgeOracle,
